@@ -114,6 +114,13 @@ def process_query(q, known_open):
         if r.get("verdict") == "fails":
             res["known_lines"].append(f"KNOWN-FINDING: property={k['property']} {k['id']}: {k['what']}")
         res.setdefault("known_replays", []).append({"id": k["id"], "verdict": r.get("verdict")})
+        if k.get("whole_scenario") and r.get("verdict") == "fails":
+            # the finding covers this scenario (grid point) as a whole: its witness still fails, nothing of the scenario is
+            # left to check; the other grid points are checked as usual.  If the witness stops failing the query runs normally.
+            res["status"] = "known"
+            res["reason"] = f"scenario covered by open known finding {k['id']}"
+            res["check"] = {"verdict": "known", "paths": 0, "wall_s": r.get("wall_s", 0)}
+            return res
     if q.engine == "py":
         r = run_py(q, extra)
         res["check"] = r
